@@ -1,10 +1,15 @@
 /-
-  FalconModel.Isa.PpcLift — the parts of the PowerPC lifter mirrored in Lean.  The PPC instruction classes are covered by
-  the three-way differential only (option (C)); what is mirrored is the one non-trivial constant the lifter computes at
-  lift time: the rotate mask of `rlwinm`/`slwi` (`rlwinm_` in lib/translator/ppc/semantics.rs).
+  FalconModel.Isa.PpcLift — the Lean mirror of what `lib/translator/ppc/{mod,semantics}.rs` emits (option (A) of the
+  lifter brief), for every mnemonic the PPC dispatcher accepts except `bc`/`bdnzl`/`bclr` (differential only):
+  addi/li, addis/lis, add, subf, addze, mr (`or` with rs = rb), nop, rlwinm/slwi, srawi, cmpwi, cmplwi, lbz, lwz, lwzu, stw,
+  stwu, stmw, mflr, mtlr, mtctr, b, bl, blr, bctr — with the record forms (`Rc = 1`) where the lifter has them.
+  The driver compares falcon's dumped IL with `liftBTR` syntactically; `FalconProofs/C02/Ppc*.lean` proves the mirror
+  against `Isa.Ppc`.  The graph builders (`g1`, `mkGraph`, `tempName`) are those of the MIPS mirror.
 -/
 import FalconModel.Isa.Ppc
+import FalconModel.Isa.MipsLift
 namespace Falcon.Isa.Ppc
+open Falcon.Isa.Mips (g1 mkGraph tempName c32 c1)
 
 /-- `rlwinm_`: `from_mb = 0xffffffff >> mb; to_me = (0xffffffff << (31 - me)) & 0xffffffff;
     mask = if mb <= me { from_mb & to_me } else { from_mb | to_me }` (u64 arithmetic) -/
@@ -13,7 +18,105 @@ def maskLifter (mb me : Nat) : Nat :=
   let toMe := (0xffffffff <<< (31 - me)) &&& 0xffffffff
   if mb ≤ me then fromMb &&& toMe else fromMb ||| toMe
 
-/-- no PPC class is mirrored as IL -/
-def liftBTR (_ws : List (BitVec 32)) (_addr : Nat) : Option BTR := none
+def gsc (i : Reg) : Scalar := { name := gprName i, bits := 32 }
+def gx (i : Reg) : Expr := .scalar (gsc i)
+def lrS : Scalar := { name := nm 32, bits := 32 }
+def ctrS : Scalar := { name := nm 33, bits := 32 }
+def caS : Scalar := { name := nm 34, bits := 1 }
+def crS (i : Nat) : Scalar := { name := crName i, bits := 1 }
+
+/-- `set_condition_register_signed/unsigned(block, crN, lhs, rhs)`: lt, gt, eq — the so bit is not written -/
+def setCrOps (cmp : BinOp) (bf : Nat) (l r : Expr) : List Op :=
+  [.assign (crS (4 * bf)) (.bin cmp l r), .assign (crS (4 * bf + 1)) (.bin cmp r l), .assign (crS (4 * bf + 2)) (.bin .cmpeq l r)]
+
+/-- `record_cr0`: the record forms compare the RESULT REGISTER with zero -/
+def recordOps (rc : Bool) (dst : Reg) : List Op := if rc then setCrOps .cmplts 0 (gx dst) (c32 0) else []
+
+def sextNat (i : BitVec 16) : Nat := (i.signExtend 32).toNat
+def eaX (ra : Reg) (d : BitVec 16) : Expr := .bin .add (c32 (sextNat d)) (gx ra)
+
+/-- `Expression::rotl(e, c sh)` -/
+def rotlX (e : Expr) (sh : Nat) : Expr :=
+  let s := Expr.bin .modu (c32 sh) (c32 32)
+  .bin .or (.bin .shl e s) (.bin .shr e (.bin .sub (c32 32) s))
+
+/-- `stmw`: one store per register from `rs` up to `r31`, the offsets advancing by 4 modulo 2^32 -/
+def stmwOps (ra : Reg) (d : Nat) : Nat → Nat → List Op
+  | 0, _ => []
+  | n + 1, k => .store (.bin .add (c32 ((d + 4 * k) % 2 ^ 32)) (gx ra)) (gx (BitVec.ofNat 5 (32 - (n + 1)))) :: stmwOps ra d n (k + 1)
+
+/-- capstone prints these `rlwinm` encodings under other mnemonics (srwi, clrlwi, rotlwi), which the dispatcher rejects;
+    `slwi` is accepted and lifted as the same `rlwinm` -/
+def rlwinmRejected (sh mb me : BitVec 5) : Bool :=
+  (me == 31 && sh.toNat + mb.toNat == 32 && mb != 0)      -- srwi n
+  || (sh == 0 && me == 31)                                -- clrlwi n
+  || (mb == 0 && me == 31)                                -- rotlwi n
+
+def liftI (i : Instr) (a : Nat) : Option Function :=
+  match i with
+  | .addi rt ra si =>
+    some (g1 a [.assign (gsc rt) (if ra = 0 then c32 (sextNat si) else .bin .add (gx ra) (c32 (sextNat si)))])
+  | .addis rt ra si =>
+    some (g1 a [.assign (gsc rt) (if ra = 0 then .bin .shl (c32 (sextNat si)) (c32 16)
+                                   else .bin .add (gx ra) (c32 (si.toNat * 65536)))])
+  | .add rt ra rb rc => some (g1 a (.assign (gsc rt) (.bin .add (gx ra) (gx rb)) :: recordOps rc rt))
+  | .subf rt ra rb rc =>
+    some (g1 a (.assign (gsc rt) (.bin .add (.bin .add (.bin .xor (gx ra) (c32 0xffffffff)) (gx rb)) (c32 1)) :: recordOps rc rt))
+  | .addze rt ra rc =>
+    let t : Scalar := { name := tempName a, bits := 32 }
+    some (g1 a ([.assign t (.bin .add (gx ra) (.ext .zext 32 (.scalar caS))),
+                 .assign caS (.bin .cmpltu (.scalar t) (gx ra)),
+                 .assign (gsc rt) (.scalar t)] ++ recordOps rc rt))
+  | .or_ ra rs rb rc => if rs = rb ∧ rc = false then some (g1 a [.assign (gsc ra) (gx rs)]) else none     -- `mr`; `or`, `or.`: rejected
+  | .ori ra rs ui => if ra = 0 ∧ rs = 0 ∧ ui = 0 then some (g1 a [.nop]) else none
+  | .rlwinm ra rs sh mb me rc =>
+    if rlwinmRejected sh mb me then none
+    else some (g1 a (.assign (gsc ra) (.bin .and (rotlX (gx rs) sh.toNat) (c32 (maskLifter mb.toNat me.toNat))) :: recordOps rc ra))
+  | .srawi ra rs sh rc =>
+    some (g1 a ([.assign caS (.bin .and (.bin .cmplts (gx rs) (c32 0))
+                                (.bin .cmpneq (.bin .and (gx rs) (c32 (2 ^ sh.toNat - 1))) (c32 0))),
+                 .assign (gsc ra) (.bin .ashr (gx rs) (c32 sh.toNat))] ++ recordOps rc ra))
+  -- with cr0 capstone omits the field operand and the lifter fails on the operand kinds: rejected
+  | .cmpi bf ra si => if bf = 0 then none else some (g1 a (setCrOps .cmplts bf.toNat (gx ra) (c32 (sextNat si))))
+  | .cmpli bf ra ui => if bf = 0 then none else some (g1 a (setCrOps .cmpltu bf.toNat (gx ra) (c32 ui.toNat)))
+  -- memory forms with RA = 0 (base "0"): rejected by the lifter's register lookup
+  | .lbz rt ra d =>
+    let t : Scalar := { name := tempName a, bits := 8 }
+    if ra = 0 then none else some (g1 a [.load t (eaX ra d), .assign (gsc rt) (.ext .zext 32 (.scalar t))])
+  | .lwz rt ra d => if ra = 0 then none else some (g1 a [.load (gsc rt) (eaX ra d)])
+  | .lwzu rt ra d => if ra = 0 then none else some (g1 a [.load (gsc rt) (eaX ra d), .assign (gsc ra) (eaX ra d)])
+  | .stw rs ra d => if ra = 0 then none else some (g1 a [.store (eaX ra d) (gx rs)])
+  | .stwu rs ra d => if ra = 0 then none else some (g1 a [.store (eaX ra d) (gx rs), .assign (gsc ra) (eaX ra d)])
+  | .stmw rs ra d => if ra = 0 then none else some (g1 a (stmwOps ra (sextNat d) (32 - rs.toNat) 0))
+  | .mflr rt => some (g1 a [.assign (gsc rt) (.scalar lrS)])
+  | .mtlr rs => some (g1 a [.assign lrS (gx rs)])
+  | .mtctr rs => some (g1 a [.assign ctrS (gx rs)])
+  | _ => none
+
+def relTarget (pc : Word) (li : BitVec 24) : Word := pc + ((li ++ (0 : BitVec 2)).signExtend 32)
+
+/-- the `BlockTranslationResult` of one instruction word at `addr` -/
+def liftInstr (i : Instr) (addr : Nat) : Option BTR :=
+  match i with
+  | .b li false =>
+    some { addr := addr, length := 0, instrs := [g1 addr [.nop]], succs := [((relTarget (BitVec.ofNat 32 addr) li).toNat, none)] }
+  | .b li true =>
+    some { addr := addr, length := 4,
+           instrs := [g1 addr [.assign lrS (c32 ((addr + 4) % 2 ^ 32)), .branch (c32 (relTarget (BitVec.ofNat 32 addr) li).toNat)]],
+           succs := [(addr + 4, none)] }
+  | .bclr bo bi false =>
+    if bo = 20 ∧ bi = 0 then
+      some { addr := addr, length := 0, instrs := [g1 addr [.branch (.bin .and (.scalar lrS) (c32 0xfffffffc))]], succs := [] }
+    else none
+  | .bcctr bo bi false =>
+    if bo = 20 ∧ bi = 0 then
+      some { addr := addr, length := 0, instrs := [g1 addr [.branch (.bin .and (.scalar ctrS) (c32 0xfffffffc))]], succs := [] }
+    else none
+  | i => (liftI i addr).map fun f => { addr := addr, length := 4, instrs := [f], succs := [(addr + 4, none)] }
+
+def liftBTR (ws : List (BitVec 32)) (addr : Nat) : Option BTR :=
+  match ws with
+  | [w] => (decode w).bind fun i => liftInstr i addr
+  | _ => none
 
 end Falcon.Isa.Ppc
